@@ -37,6 +37,43 @@ CLAIMED = {
         note="Assumed: inspect.signature and np.asarray as pure functions; the evaluator contract of C03; the call frame maps x,y,z "
              "positionally (built by _eval_fn, not under contract); _handle_import and _find_symbol not under contract.",
         ref="DESIGN.md section 4 C09, Appendix A.4"),
+    'C07': dict(
+        text="Frame postconditions of the real gradient entry points on the normal AND the exceptional exit, the differentiated "
+             "function being an arbitrary callee that may raise at any call: every parameter symbol is bound to the same object as at "
+             "entry (ghost binding map; restore-in-finally of call_fn_with_tensors / single_param_fn / eval_dyad_grad.func), and the "
+             "contents of every array of the caller are unchanged (alias-aware: np.asarray may return its argument, element assignment "
+             "writes in place, read/write array lemmas instantiated at each write).",
+        note="Assumed: NumPy aliasing/copy contracts as stated, the differentiated function neither rebinds the symbols under "
+             "differentiation nor writes arrays in place, composition of the C03/C09 context contracts as the binding map; torch's "
+             "compute_* functions (external) not under contract; values of gradients are C06 (not applicable).",
+        ref="DESIGN.md section 4 C07, Appendix A.5"),
+    'C10': dict(
+        text="Whole-view postconditions on the dictionary branches of the real Join (both operand orders), Find, Drop, Size and Each over "
+             "an abstract finite map (ghost domain/value maps): the result IS the operand dictionary, view' = view[k -> v] resp. view minus k "
+             "with all other keys of all dictionaries unchanged, missing key -> :undefined, f applied once per pair with the pair as "
+             "argument; the string+string branch cannot capture a dictionary; a literal is parsed into a call of copy_lambda whose body "
+             "is a deep copy (AST-structural checks).",
+        note="Assumed: Python dict as a finite map keyed by hash/== with items() yielding each pair once; deepcopy returns a fresh equal "
+             "object; the induction over operation histories from the per-operation contracts is the standard ADT argument (stated); "
+             "At/Index on dictionaries not under contract.",
+        ref="DESIGN.md section 4 C10"),
+    'C11': dict(
+        text="Strings: the real writer's loop proves kg_write_string(s) = '\"' ++ enc(s) ++ '\"' and the real reader's loop proves "
+             "read_string(t,i) = dec(t,i) against positional spec functions; Lean proves dec(enc s ++ '\"' ++ tail) = (s, |enc s|+1) "
+             "under the follow condition; characters (0cX), symbols (:name) and the dispatch order of kg_write over the class lattice. "
+             "Lists, numbers, dictionaries and Form/Format: bounded stand-in per value kind only (labelled, not counted as proved).",
+        note="Assumed: hand pairing of the SMT / Python / Lean renderings of the spec functions (narrowed by a bounded cross-check each "
+             "run); float/int repr round trips. Known finding: a written dictionary reads back as an unevaluated call object.",
+        ref="DESIGN.md section 4 C11",
+        technique=TECH + "; Lean 4 for the inductive round-trip lemma; bounded enumeration stand-in for lists/numbers/dictionaries"),
+    'C19': dict(
+        text="Typestate contract on the real Table class: every read of the data frame whose rows flow to a result (and every write of "
+             "it outside commit) happens with an empty insert buffer; insert/insertb extend the buffer by exactly the given rows in "
+             "order and touch nothing else; commit empties the buffer; .insert validates the column count and routes single rows / "
+             "batches; has_index <=> idx_cols is not None; set_index/reset_index commit first and keep idx_cols consistent.",
+        note="Assumed: pandas and DuckDB semantics (concat order, sort, dedup, upsert, SQL) - the ordering and one-row-per-key sentences "
+             "of the property rest on them and are NOT decided.",
+        ref="DESIGN.md section 4 C19, Appendix A.6"),
     'C15': dict(
         text="Representation invariant of the real KGTimerHandler / _call_periodic / run closure over ghost state (stopped flag, number of "
              "live loop handles): at most one live handle, none once stopped; .timerc returns 1 exactly when it stopped a live timer; the "
